@@ -1301,7 +1301,9 @@ func (p *Printer) command(cmd Command, redirs []*Redirect) (startRedirs int) {
 		p.semiRsrv("done", cmd.DonePos)
 	case *BinaryCmd:
 		p.stmt(cmd.X)
-		if p.minify || p.singleLine || cmd.Y.Pos().Line() <= p.line {
+		// Comments after the operator need the multi-line form to be kept.
+		singleLine := p.singleLine && len(cmd.Y.Comments) == 0
+		if p.minify || singleLine || cmd.Y.Pos().Line() <= p.line {
 			// leave p.nestedBinary untouched
 			p.spacedToken(cmd.Op.String(), cmd.OpPos)
 			p.advanceLine(cmd.Y.Pos().Line())
